@@ -66,11 +66,18 @@ def valLE : List Nat → Nat
 
 def showNat (n : Nat) : Str := ((digitsLE (n + 1) n).reverse).map digitChar
 
+def digitsOf : Str → Option (List Nat)
+  | [] => some []
+  | c :: cs =>
+    match charDigit? c, digitsOf cs with
+    | some d, some ds => some (d :: ds)
+    | _, _ => none
+
 def readNat (s : Str) : Option Nat :=
-  match s.mapM charDigit? with
+  match digitsOf s with
   | none => none
   | some [] => none
-  | some ds => some (valLE ds.reverse)
+  | some (d :: ds) => some (valLE (d :: ds).reverse)
 
 def showInt : Int → Str
   | Int.ofNat n => showNat n
